@@ -9,6 +9,9 @@ import (
 	"context"
 	"encoding/json"
 	"fmt"
+	"io/ioutil"
+	"os"
+	"os/exec"
 	"reflect"
 	"sort"
 	"strconv"
@@ -69,7 +72,19 @@ const (
 	flagKey
 	extKey
 	fallbackKey
+	panicKey
 )
+
+var contextType = reflect.TypeOf((*context.Context)(nil)).Elem()
+
+// every filter / sort field function panics when the case asks for it (process-survival probe)
+func maybePanic(ctx reflect.Value) {
+	if c, ok := ctx.Interface().(context.Context); ok {
+		if b, _ := c.Value(panicKey).(bool); b {
+			panic("c11: filter/sort field function panics")
+		}
+	}
+}
 
 var impls = []string{"plain", "exp", "batch", "fb"}
 var textAttrs = []string{"t0", "t1", "t2"}
@@ -97,15 +112,19 @@ func attrOpts(itemT reflect.Type, attr string, isSort bool) []schemabuilder.Fiel
 	sf, _ := itemT.FieldByName(structField[attr])
 	valT := sf.Type
 	get := func(it reflect.Value) reflect.Value { return it.FieldByName(structField[attr]) }
-	one := reflect.MakeFunc(reflect.FuncOf([]reflect.Type{itemT}, []reflect.Type{valT}, false),
-		func(in []reflect.Value) []reflect.Value { return []reflect.Value{get(in[0])} }).Interface()
-	oneE := reflect.MakeFunc(reflect.FuncOf([]reflect.Type{itemT}, []reflect.Type{valT, errorType}, false),
-		func(in []reflect.Value) []reflect.Value { return []reflect.Value{get(in[0]), reflect.Zero(errorType)} }).Interface()
-	inT, outT := reflect.MapOf(indexType, itemT), reflect.MapOf(indexType, valT)
-	many := reflect.MakeFunc(reflect.FuncOf([]reflect.Type{inT}, []reflect.Type{outT, errorType}, false),
+	one := reflect.MakeFunc(reflect.FuncOf([]reflect.Type{contextType, itemT}, []reflect.Type{valT}, false),
+		func(in []reflect.Value) []reflect.Value { maybePanic(in[0]); return []reflect.Value{get(in[1])} }).Interface()
+	oneE := reflect.MakeFunc(reflect.FuncOf([]reflect.Type{contextType, itemT}, []reflect.Type{valT, errorType}, false),
 		func(in []reflect.Value) []reflect.Value {
-			out := reflect.MakeMapWithSize(outT, in[0].Len())
-			for it := in[0].MapRange(); it.Next(); {
+			maybePanic(in[0])
+			return []reflect.Value{get(in[1]), reflect.Zero(errorType)}
+		}).Interface()
+	inT, outT := reflect.MapOf(indexType, itemT), reflect.MapOf(indexType, valT)
+	many := reflect.MakeFunc(reflect.FuncOf([]reflect.Type{contextType, inT}, []reflect.Type{outT, errorType}, false),
+		func(in []reflect.Value) []reflect.Value {
+			maybePanic(in[0])
+			out := reflect.MakeMapWithSize(outT, in[1].Len())
+			for it := in[1].MapRange(); it.Next(); {
 				out.SetMapIndex(it.Key(), get(it.Value()))
 			}
 			return []reflect.Value{out, reflect.Zero(errorType)}
@@ -316,6 +335,8 @@ func classify(msg string) string {
 		return "both"
 	case strings.Contains(msg, "unknown sort field"):
 		return "unknown-sort"
+	case strings.Contains(msg, "graphql: panic:"):
+		return "resolver-panic"
 	case strings.Contains(msg, "must set TotalCountFunc on PaginationInfo"):
 		return "no-total-func"
 	}
@@ -337,6 +358,7 @@ func runPage(schema *graphql.Schema, c *Case, a Args) pageResult {
 	ctx = context.WithValue(ctx, flagKey, c.Flag)
 	ctx = context.WithValue(ctx, extKey, c.Ext)
 	ctx = context.WithValue(ctx, fallbackKey, c.Fallback)
+	ctx = context.WithValue(ctx, panicKey, c.Panic)
 	text := queryText(field, a)
 	go func() {
 		var r res
@@ -371,9 +393,12 @@ func runPage(schema *graphql.Schema, c *Case, a Args) pageResult {
 			return pageResult{Err: "other: marshal " + err.Error()}
 		}
 		var top map[string]interface{}
-		if err := json.Unmarshal(b, &top); err != nil {
+		dec := json.NewDecoder(strings.NewReader(string(b)))
+		dec.UseNumber() // integers are compared exactly, not through float64
+		if err := dec.Decode(&top); err != nil {
 			return pageResult{Err: "other: unmarshal " + err.Error()}
 		}
+		top, _ = exactNumbers(top).(map[string]interface{})
 		c, ok := top["c"].(map[string]interface{})
 		if !ok {
 			return pageResult{Err: "other: no connection object in " + string(b)}
@@ -382,6 +407,87 @@ func runPage(schema *graphql.Schema, c *Case, a Args) pageResult {
 	case <-time.After(20 * time.Second):
 		return pageResult{Err: "timeout"}
 	}
+}
+
+// runPageIsolated runs one page query of a case whose field functions panic in a child process (this
+// binary with -probe): if thunder lets the panic escape a goroutine the child dies, not the harness.
+func runPageIsolated(dir string, c *Case, a Args) pageResult {
+	cc := *c
+	cc.Args = a
+	f, err := ioutil.TempFile(dir, "probe-*.json")
+	if err != nil {
+		return pageResult{Err: "other: " + err.Error()}
+	}
+	defer os.Remove(f.Name())
+	json.NewEncoder(f).Encode(cc)
+	f.Close()
+	exe, _ := os.Executable()
+	cmd := exec.Command(exe, "-probe", f.Name())
+	var out, errb strings.Builder
+	cmd.Stdout, cmd.Stderr = &out, &errb
+	done := make(chan error, 1)
+	cmd.Start()
+	go func() { done <- cmd.Wait() }()
+	select {
+	case err = <-done:
+	case <-time.After(30 * time.Second):
+		cmd.Process.Kill()
+		return pageResult{Err: "timeout"}
+	}
+	var res struct {
+		Conn map[string]interface{}
+		Err  string
+	}
+	dec := json.NewDecoder(strings.NewReader(out.String()))
+	dec.UseNumber()
+	if err != nil || dec.Decode(&res) != nil {
+		tail := errb.String()
+		if len(tail) > 300 {
+			tail = tail[:300]
+		}
+		return pageResult{Err: "process-died: " + strings.SplitN(tail, "\n", 2)[0]}
+	}
+	conn, _ := exactNumbers(res.Conn).(map[string]interface{})
+	if res.Err == "" && conn == nil {
+		return pageResult{Err: "other: probe returned nothing"}
+	}
+	return pageResult{Conn: conn, Err: res.Err}
+}
+
+// probeMain is the child side of runPageIsolated.
+func probeMain(path string) {
+	var c Case
+	b, err := ioutil.ReadFile(path)
+	if err != nil || json.Unmarshal(b, &c) != nil {
+		os.Exit(3)
+	}
+	schema, err := buildSchema()
+	if err != nil {
+		os.Exit(4)
+	}
+	r := runPage(schema, &c, c.Args)
+	json.NewEncoder(os.Stdout).Encode(map[string]interface{}{"Conn": r.Conn, "Err": r.Err})
+}
+
+// exactNumbers replaces json.Number by int64 (or float64 when it is not an integer in range).
+func exactNumbers(v interface{}) interface{} {
+	switch x := v.(type) {
+	case json.Number:
+		if n, err := strconv.ParseInt(string(x), 10, 64); err == nil {
+			return n
+		}
+		f, _ := x.Float64()
+		return f
+	case map[string]interface{}:
+		for k, e := range x {
+			x[k] = exactNumbers(e)
+		}
+	case []interface{}:
+		for i, e := range x {
+			x[i] = exactNumbers(e)
+		}
+	}
+	return v
 }
 
 func sortedStrings(xs []string) []string {
